@@ -5,6 +5,7 @@ handler threads) run under a baton scheduler that owns every synchronisation ope
 import collections
 import io
 import queue as _realqueue
+import sys
 import threading
 import traceback
 import types
@@ -447,12 +448,36 @@ class Net(object):
         self.ends.append(server_end)
         client_end.peer, server_end.peer = server_end, client_end
         handler = self.listeners[addr]
-        self.sched.spawn(lambda: handler(server_end, ('client', self.nconn)), '%s%d' % (getattr(handler, 'vp_name', 'handler'), self.nconn))
+        if hasattr(handler, 'vp_accept'):
+            handler.vp_accept(server_end, ('client', self.nconn))
+        else:
+            self.sched.spawn(lambda: handler(server_end, ('client', self.nconn)), '%s%d' % (getattr(handler, 'vp_name', 'handler'), self.nconn))
         self.sched.point('connect')
 
 
+class CoopThread(object):
+    """What socketserver.ThreadingMixIn.process_request gets for threading.Thread: start() registers the thread with the scheduler."""
+    def __init__(self, group=None, target=None, name=None, args=(), kwargs=None, daemon=None):
+        self.target, self.args, self.kwargs, self.daemon = target, args, kwargs or {}, daemon
+        self.name = name
+
+    def start(self):
+        s = cur()
+        s.spawn(lambda: self.target(*self.args, **self.kwargs), 'handler%d' % (ADAPTER.net.nconn if ADAPTER.net is not None else len(s.threads)))
+        s.point('thread.start')
+
+    def join(self, timeout=None):
+        pass
+
+    def is_alive(self):
+        return False
+
+
 def serve_ae(ae):
-    """The per-connection work of socketserver.ThreadingMixIn.process_request_thread for application entity `ae`."""
+    """How a connection reaches application entity `ae`: the entity's own process_request() (socketserver.ThreadingMixIn: one
+    thread per connection running process_request_thread = finish_request + shutdown_request) is called for every accepted
+    connection, in the thread of the connecting side (the accept loop itself does nothing else).  Calling the returned function
+    directly gives the per-connection work only (used where a harness wraps it)."""
     def handler(request, client_address):
         try:
             ae.finish_request(request, client_address)
@@ -460,6 +485,11 @@ def serve_ae(ae):
             ae.__dict__.setdefault('vp_handler_errors', []).append(exc)
         finally:
             ae.shutdown_request(request)
+
+    def accept(request, client_address):
+        ae.handle_error = lambda req, addr: ae.__dict__.setdefault('vp_handler_errors', []).append(sys.exc_info()[1])
+        ae.process_request(request, client_address)
+    handler.vp_accept = accept
     return handler
 
 
@@ -510,6 +540,12 @@ def apply_patches():
                                                   local=threading.local, get_ident=threading.get_ident)
     asceprovider.time = types.SimpleNamespace(time=lambda: cur().now, sleep=lambda d: cur().sleep(d))
     applicationentity.Lock = CoopLock
+    import socketserver
+    if not hasattr(socketserver, 'threading') or not hasattr(socketserver.ThreadingMixIn, 'process_request'):
+        raise HarnessError('socketserver.ThreadingMixIn changed: cannot route per-connection threads through the scheduler')
+    ns = types.SimpleNamespace(**{k: getattr(threading, k) for k in dir(threading) if not k.startswith('__')})
+    ns.Thread = CoopThread
+    socketserver.threading = ns
 
     def start(prov):
         cur().spawn(prov.run, 'dul%d' % len(cur().threads))
